@@ -316,3 +316,99 @@ func TestPropReverse(t *testing.T) {
 
 var _ = time.Now
 var _ signingalgorithm.SigningAlgorithm
+
+// ---- signer reuse: one Signer object signs exchange A, is then re-pointed at another
+// certificate for the SAME key (fixtures 0 and 3 share a key: certificate renewal) with other
+// dates / URLs, and signs exchange B. B's bytes must be what the specification prescribes for
+// the signer's CURRENT fields (no state may be carried over from the first signing).
+
+type ReuseCase struct {
+	A, B Case `json:"-"`
+	SA   sxgkit.Spec `json:"a"`
+	SB   sxgkit.Spec `json:"b"`
+}
+
+var reuse = vh.Define("C08", "signer-reuse", func(c ReuseCase, r *vh.R) {
+	sa, sb := c.SA, c.SB
+	sa.Fixture, sb.Fixture = 0, 3 // same key, different certificates
+	if c.SA.Fixture == 3 {
+		sa.Fixture, sb.Fixture = 3, 0
+	}
+	sa.Mock, sb.Mock = false, false
+	ea := sxgkit.New(&sa)
+	eb := sxgkit.New(&sb)
+	if err := ea.MiEncodePayload(sa.RecordSize); err != nil {
+		r.Failf("mi-error", "%v", err)
+		return
+	}
+	if err := eb.MiEncodePayload(sb.RecordSize); err != nil {
+		r.Failf("mi-error", "%v", err)
+		return
+	}
+	sg, err := sxgkit.Signer(&sa)
+	if err != nil {
+		r.Skip = true
+		return
+	}
+	if err := ea.AddSignatureHeader(sg); err != nil {
+		r.Failf("sign-error", "first signing: %v", err)
+		return
+	}
+	// re-point the same Signer object
+	fb := gen.Fixtures()[sb.Fixture]
+	sg.Certs = fb.Chain
+	sg.Date = time.Unix(sb.Date, 0)
+	sg.Expires = time.Unix(sb.Expires, 0)
+	sg.ValidityUrl = mustURL(sb.ValidityURL)
+	sg.CertUrl = mustURL(sb.CertURL)
+	if err := eb.AddSignatureHeader(sg); err != nil {
+		r.Failf("sign-error", "second signing with the re-pointed signer: %v", err)
+		return
+	}
+	canon, _ := expectedCanon(&sb, eb)
+	re := canon.RefExchange()
+	vu := mustURL(sb.ValidityURL).String()
+	certSha := gen.CertSha256(fb.Leaf)
+	refMsg := refsxg.SignedMessage(re, certSha, vu, sb.Date, sb.Expires)
+	var mb bytes.Buffer
+	if err := eb.DumpSignedMessage(&mb, sg); err != nil || !bytes.Equal(mb.Bytes(), refMsg) {
+		r.Failf("signed-message", "DumpSignedMessage after re-pointing the signer differs from the specification (err %v)", err)
+		return
+	}
+	m := sigRe.FindStringSubmatch(eb.SignatureHeaderValue)
+	if m == nil {
+		r.Failf("signature-header", "no sig parameter in %q", eb.SignatureHeaderValue)
+		return
+	}
+	sig, err := base64.StdEncoding.DecodeString(m[1])
+	if err != nil {
+		r.Failf("signature-header", "sig parameter is not base64")
+		return
+	}
+	if !ecdsa.VerifyASN1(&fb.Key.PublicKey, digestFor(fb.Key, refMsg), sig) {
+		r.Failf("signature-invalid", "second signature of a reused Signer does not verify over the specification's message for the signer's CURRENT certificate / dates / URLs (state carried over from the first signing?)")
+		return
+	}
+	want := refsxg.SignatureHeader(refsxg.SigParams{Label: "label", Sig: sig, Integrity: refsxg.IntegrityID(sb.Version), CertURL: mustURL(sb.CertURL).String(),
+		CertSha256: certSha, ValidityURL: vu, Date: sb.Date, Expires: sb.Expires})
+	if eb.SignatureHeaderValue != want {
+		r.Failf("signature-header", "Signature header of the second exchange differs\n got  %s\n want %s", eb.SignatureHeaderValue, want)
+		return
+	}
+	// and the result must verify against the CURRENT certificate
+	if p, ok, lg := sxgkit.VerifyLog(eb, sb.Date+(sb.Expires-sb.Date)/2, sxgkit.Fetcher(sb.Fixture)); !ok || !bytes.Equal(p, sb.Payload()) {
+		r.Failf("reused-signer-output-rejected", "exchange signed by the re-pointed signer does not verify against its current certificate: %s", lg)
+		return
+	}
+	r.NT()
+	r.Class(sb.Version)
+})
+
+func TestPropSignerReuse(t *testing.T) {
+	reuse.Rapid(t, func(t *rapid.T) ReuseCase {
+		a := genCase(t, true)
+		b := genCase(t, true)
+		a.Spec.Fixture = rapid.SampledFrom([]int{0, 3}).Draw(t, "firstfixture")
+		return ReuseCase{SA: a.Spec, SB: b.Spec}
+	})
+}
